@@ -275,10 +275,34 @@ fn eval_dual(
     out
 }
 
+thread_local! {
+    /// a context that lives for the whole run of a worker thread: every third
+    /// symbolic check builds its program in it after `clear()`
+    static LONG_CTX: std::cell::RefCell<Option<fidget_core::Context>> = const { std::cell::RefCell::new(None) };
+}
+
 /// Symbolic derivative: `Context::deriv(root, v)` evaluated in f64 must match
 /// the f64 dual reference of the original program
 fn check_symbolic(p: &Prog, rng: &mut Rng, st: &mut Stats) -> Result<(), Viol> {
-    let mut b = p.build();
+    let reuse = rng.chance(0.34);
+    let mut b = if reuse {
+        // derivatives were taken in this context before it was cleared; node
+        // handles restart from the beginning after a clear
+        let mut ctx = LONG_CTX.with(|c| c.borrow_mut().take()).unwrap_or_default();
+        ctx.clear();
+        st.inc("symbolic_checks_in_a_cleared_long_lived_context");
+        p.build_in(ctx, prog::fresh_vars(p.n_vars))
+    } else {
+        p.build()
+    };
+    let r = check_symbolic_in(p, &mut b, rng, st);
+    if reuse {
+        LONG_CTX.with(|c| *c.borrow_mut() = Some(b.ctx));
+    }
+    r
+}
+
+fn check_symbolic_in(p: &Prog, b: &mut prog::Built, rng: &mut Rng, st: &mut Stats) -> Result<(), Viol> {
     let root = p.roots(&b)[0];
     let order = graph::topo(&b.ctx, &[root]);
     let used: Vec<Var> = order
